@@ -196,7 +196,13 @@ func lockFlow(fn *ssa.Function, entry heldSet) *LockFlow {
 			if !changedOut {
 				continue
 			}
-			for _, s := range b.Succs {
+			for si, s := range b.Succs {
+				cur := cur
+				// `if mu.TryLock() { … }`: the lock is held on the edge where the attempt succeeded
+				if ref, onTrue, ok := tryLockBranch(lf.tb, b); ok && len(b.Succs) == 2 && ((si == 0) == onTrue) {
+					cur = cur.clone()
+					cur[ref.Path+"/"+string(ref.Mode)] = ref
+				}
 				var merged heldSet
 				if old, seen := in[s]; !seen {
 					merged = cur.clone()
@@ -221,6 +227,41 @@ func lockFlow(fn *ssa.Function, entry heldSet) *LockFlow {
 		}
 	}
 	return lf
+}
+
+// tryLockBranch: block b ends in a branch on the result of mu.TryLock() / mu.TryRLock()
+// (possibly negated); onTrue tells which successor runs with the lock held.
+func tryLockBranch(tb *termBuilder, b *ssa.BasicBlock) (ref LockRef, onTrue bool, ok bool) {
+	if len(b.Instrs) == 0 {
+		return
+	}
+	iff, isIf := b.Instrs[len(b.Instrs)-1].(*ssa.If)
+	if !isIf {
+		return
+	}
+	cond, truth := iff.Cond, true
+	for {
+		u, isNot := cond.(*ssa.UnOp)
+		if !isNot || u.Op != token.NOT {
+			break
+		}
+		cond, truth = u.X, !truth
+	}
+	call, isCall := cond.(*ssa.Call)
+	if !isCall || len(call.Common().Args) == 0 {
+		return
+	}
+	mode := byte('W')
+	switch CalleeName(call.Common()) {
+	case "(*sync.Mutex).TryLock", "(*sync.RWMutex).TryLock":
+	case "(*sync.RWMutex).TryRLock":
+		mode = 'R'
+	default:
+		return
+	}
+	t := tb.of(call.Common().Args[0], 0)
+	path, tid := lockPath(t)
+	return LockRef{Path: path, TypeID: tid, Mode: mode, T: t}, truth, true
 }
 
 func sameKeys(a, b heldSet) bool {
@@ -315,7 +356,70 @@ func substParams(t *Term, args []*Term) *Term {
 	for i, a := range t.Args {
 		c.Args[i] = substParams(a, args)
 	}
+	// a call of a function-typed parameter bound to a function literal with one plain result:
+	// the literal's result, with its parameters replaced by the call's arguments
+	if t.Op == "call" && strings.HasPrefix(t.Sym, "dyn:p") {
+		var k int
+		if _, err := fmt.Sscanf(t.Sym, "dyn:p%d", &k); err == nil && k < len(args) && args[k] != nil {
+			switch lit := args[k].V.(type) {
+			case *ssa.MakeClosure:
+				g, _ := lit.Fn.(*ssa.Function)
+				if r := literalResultTerm(g, lit.Bindings, c.Args); r != nil {
+					return r
+				}
+			case *ssa.Function: // a literal that captures nothing
+				if lit.Parent() != nil {
+					if r := literalResultTerm(lit, nil, c.Args); r != nil {
+						return r
+					}
+				}
+			}
+		}
+	}
 	return &c
+}
+
+// literalResultTerm: the single result of the function literal created by mc, written with
+// args for its parameters and its creator's values for what it captured; nil when the literal
+// has several returns or results.
+func literalResultTerm(g *ssa.Function, bindings []ssa.Value, args []*Term) *Term {
+	if g == nil || len(g.Params) != len(args) {
+		return nil
+	}
+	var ret *ssa.Return
+	for _, b := range g.Blocks {
+		if r, ok := b.Instrs[len(b.Instrs)-1].(*ssa.Return); ok {
+			if ret != nil {
+				return nil
+			}
+			ret = r
+		}
+	}
+	if ret == nil || len(ret.Results) != 1 {
+		return nil
+	}
+	tb := newTB()
+	for i, prm := range g.Params {
+		tb.memo[prm] = args[i]
+	}
+	creator := newTB()
+	for i, fv := range g.FreeVars {
+		if i >= len(bindings) {
+			break
+		}
+		if al, isCell := bindings[i].(*ssa.Alloc); isCell {
+			if sv := uniqueStore(al); sv != nil {
+				for _, r := range *fv.Referrers() {
+					if ld, ok := r.(*ssa.UnOp); ok && ld.Op == token.MUL {
+						tb.memo[ld] = creator.of(sv, 1)
+					}
+				}
+			}
+			continue
+		}
+		tb.memo[fv] = creator.of(bindings[i], 1)
+	}
+	return tb.of(ret.Results[0], 1)
 }
 
 func (la *lockAnalysis) summary(fn *ssa.Function) *LockSummary {
